@@ -5,7 +5,7 @@ CONSTANTS
   Levels = {1, 2, 3}
   MaxTs = 4
   MaxSlot = 1
-  MaxNow = 2
+  MaxNow = 3
   Excesses = {0, 1}
 INVARIANTS InvValid
 PROPERTIES PTsMonotone PStoredValid PRejectedUnchanged PSkipUnchanged PIdemOlder PStoresRequest PConforms
